@@ -145,11 +145,22 @@ pub fn run_analyze_dir(root: &Path, sel: &Selection) -> Result<Findings, String>
         // present in the returned map is not something any property fixes
         for v in f.values_mut() {
             v.retain(|(_, ls)| !ls.is_empty());
+            // how a file is labelled (bare name, path relative to the analysed directory) is not fixed by any property:
+            // labels are compared by their last path component
+            for e in v.iter_mut() {
+                e.0 = base_name(&e.0);
+            }
             v.sort();
         }
         f.retain(|_, v| !v.is_empty());
         f
     })
+}
+
+/// last path component of a file label
+pub fn base_name(label: &str) -> String {
+    // only `/` separates components (a backslash is an ordinary character of a file name here)
+    label.rsplit('/').next().unwrap_or(label).to_string()
 }
 
 /// the oracle: union of per-file results over eligible files
@@ -571,6 +582,9 @@ fn binary_replay(trees: &[Vec<Entry>], run: &mut Run) -> (u64, u64) {
                     }
                     let mut got_e = parsed.entries.clone();
                     for v in got_e.values_mut() {
+                        for e in v.iter_mut() {
+                            e.0 = base_name(&e.0);
+                        }
                         v.sort();
                     }
                     got_e.retain(|_, v| !v.is_empty());
@@ -1228,6 +1242,9 @@ pub fn dir_layout_check(progs: &[crate::synth::Prog], property: &str) -> (Vec<Vi
                 let got_e = rendered.map(|rep| {
                     let mut g = crate::report::parse_report(&rep, &tb).entries;
                     for v in g.values_mut() {
+                        for e in v.iter_mut() {
+                            e.0 = base_name(&e.0);
+                        }
                         v.sort();
                     }
                     g.retain(|_, v| !v.is_empty());
